@@ -1412,3 +1412,28 @@ def type_mentions(F, ty, needle_rx, depth=4, _seen=None):
                 if type_mentions(F, f.get('ty', ''), needle_rx, depth - 1, _seen):
                     return True
     return False
+
+
+def pure_variant_selector(b):
+    """the body only looks at the enum discriminant of its argument and projects a field out of it (no calls, no other tests)"""
+    for bi in b.normal_blocks():
+        t = b.term(bi)
+        if t['k'] == 'call':
+            return False
+        if t['k'] == 'switch':
+            d = switch_def(b, bi)
+            if not d or d[2] != 'assign' or d[3]['r']['k'] != 'discr':
+                return False
+    return True
+
+
+def loop_source_selectors(body, loop):
+    """crate functions / closures handed to the iterator adaptors that feed `loop` (filter_map(f), filter(|..|), map(..)),
+    and the names of the adaptors"""
+    t = body.term(loop['head'])
+    if not t['a'] or op_place(t['a'][0]) is None:
+        return [], set()
+    sl = backward_slice(body, [op_place(t['a'][0])])
+    sels = [body.facts.body(c) for c in sl.calls if body.facts.body(c) is not None]
+    adaptors = set(c.split('::')[-1] for c in sl.calls if re.search(r'Iterator::[a-z_]+$', c))
+    return sels, adaptors
